@@ -271,7 +271,8 @@ def escape(ctx):
     from .common import resolve_locals
     def _pairs(v):
         m_ = pm.match('dict(zip(_A, _B))', v) or pm.match('dict(zip(_A, _B, strict=_S))', v)
-        return 'dict(zip(%s, %s))' % (src(m_['_A']), src(m_['_B'])) if m_ else src(v)
+        from .common import strip_declared as _sd
+        return 'dict(zip(%s, %s))' % (src(_sd(m_['_A'])), src(_sd(m_['_B']))) if m_ else src(v)
     kms = sorted(_pairs(resolve_locals(da, env_['_V'])) for _n, env_ in pm.find('_L.key_map = _V', da))
     r.check(kms == ['dict(zip(source_keys, target_keys))', 'dict(zip(target_keys, source_keys))'],
             'key maps are new dictionaries built from the key lists', da, construct='xtuml.meta:MetaModel.define_association', key='key_map-copy',
